@@ -24,7 +24,7 @@ echo "|---|---|---|---|---|"
 for P in $LIST; do
   ID=$(basename "$P" .diff); PROP=${ID%%-*}
   git -C "$SCRATCH/wt" checkout -q -- . ; git -C "$SCRATCH/wt" apply "$P" 2>/dev/null || { echo "| $ID | $PROP | patch does not apply | - | - |" >> "$OUT"; continue; }
-  (cd "$SCRATCH/wt" && cargo test --workspace --no-fail-fast --offline > "$SCRATCH/out/$ID.suite" 2>&1)
+  (cd "$SCRATCH/wt" && timeout 300 cargo test --workspace --no-fail-fast --offline > "$SCRATCH/out/$ID.suite" 2>&1); [ $? = 124 ] && echo "error: suite timed out (hang)" >> "$SCRATCH/out/$ID.suite"
   PASSED=$(grep -E "^test result: ok" "$SCRATCH/out/$ID.suite" | awk '{s+=$4} END {print s+0}')
   FAILED=$(grep -E "^test result:" "$SCRATCH/out/$ID.suite" | awk '{s+=$6} END {print s+0}')
   if grep -q "^error" "$SCRATCH/out/$ID.suite"; then SUITE="does not compile"; elif [ "$FAILED" != "0" ]; then SUITE="FAILS ($FAILED failed)"; else SUITE="passes ($PASSED)"; fi
